@@ -11,7 +11,7 @@ pub fn plan() -> Plan {
         meta: Meta {
             property: "C02",
             level: "exploration",
-            rule: "model differential: after EVERY step, for every key (+2 absent keys): read_all, read_all_with_deletion_marker (entries compared by timestamp, deleted flag, bytes via load_data, meta via load_meta), read_with for each meta of the alphabet {empty, A, B}; the return value of every delete/delete_with (blobs marked) and, for the duplicate policy, records_count (whether a write physically stored something). Random histories over 3 keys, timestamps 0..5, metas, both only_if_presented values, bursts, rotations, restore, dumps, restarts; both duplicate policies; plus all fixed-length histories over a 6-symbol alphabet. Non-trivial = some key has a deletion marker and records in >=2 blobs; distinct = hash of (history, configuration).",
+            rule: "model differential: after EVERY step, for every key (+2 absent keys): read_all, read_all_with_deletion_marker (entries compared by timestamp, deleted flag, bytes via load_data, meta via load_meta), read_with for each meta of the alphabet {empty, A, B}; the return value of every delete/delete_with (blobs marked) and, for the duplicate policy, records_count (whether a write physically stored something). Random histories over 3 keys, timestamps 0..5, metas, both only_if_presented values, bursts, rotations, restore, dumps, restarts; both duplicate policies; plus all fixed-length histories over a 6-symbol alphabet. A quarter of the random histories rotate automatically (record limit 1-4 or size limit 100-900 bytes with a 0 ms rotation debounce; every rotation the worker performs is mirrored into the model, a rotation below the limit is a mismatch); one in eight starts with 9-14 small blobs (two-digit blob ids, several filter levels); one in twelve starts with a fat blob of 70-140 records (multi-leaf on-disk index). Non-trivial = some key has a deletion marker and records in >=2 blobs; distinct = hash of (history, configuration).",
             assumptions: vec!["rotation through the lifecycle API / worker barrier", "verdict holds for the executions produced by this seed only"],
         },
         shards: 16,
